@@ -687,6 +687,27 @@ def install_fast_pxml():
 
     E.xpath = xpath
 
+    orig_tostring = le.tostring
+
+    def _has_symbolic(e):
+        for n in e.iter():
+            d = n.__dict__
+            if isinstance(d["_px_text"], core.CrossHairValue) or isinstance(d["_px_tail"], core.CrossHairValue):
+                return True
+            for v in d["_px_attrib"]._d.values():
+                if isinstance(v, core.CrossHairValue):
+                    return True
+        return False
+
+    def tostring(element, *a, **k):
+        with NoTracing():
+            root = element.getroot() if hasattr(element, "getroot") else element
+            if not _has_symbolic(root):
+                return orig_tostring(element, *a, **k)
+        return orig_tostring(element, *a, **k)
+
+    le.tostring = tostring
+
     orig_concrete = le._parse_concrete
 
     def parse_concrete(text, parser):
